@@ -473,8 +473,12 @@ func c13History(t *testing.T, out *zzverif.Out, init []string, ops []c13HOp) {
 				}
 			}
 			var first string
+			generic := len(c13Spellings(nm))
 			for k, sp := range sps {
 				if _, err := nameToPath(sp); (err == nil) != (nerr == nil) {
+					if k < generic { // the name itself, its lower- and upper-case forms: ASCII case never changes acceptance
+						out.L2("fold-acceptance", "n2p "+zzverif.Hex([]byte(sp)), fmt.Sprintf("step %d: %q accepted=%v but its case variant %q accepted=%v", i, nm, nerr == nil, sp, err == nil))
+					}
 					continue // an on-disk foreign spelling that is not itself a valid name (KELVIN SIGN …)
 				}
 				d, rerr := c.Resolve(sp)
